@@ -386,8 +386,8 @@ def run_shard(ctx, shard):
             case['kw'] = {'entry': rng.choice([0, 3])}
         if fam in ('connected', 'cold') or (fam == 'stress' and shard.get('big')):
             # the biggest documents take up to half a minute on an idle machine: the wall-clock watchdog (whose second
-            # firing is reported as a hang) leaves a factor of 30, the step fuse is what bounds the work
-            case['watchdog'] = 900.0
+            # firing is reported as a hang) leaves a factor of 20, the step fuse is what bounds the work
+            case['watchdog'] = 600.0
         ctx.run_case(case)
         if i == 0:
             ctx.sample({'family': fam, 'kw': kw, 'input': inp[:300]})
